@@ -1211,6 +1211,7 @@ fn run_script_opt(rep: &mut Report, script: &[String], property: Option<&str>, w
         let before_live = live_annotations(&ex.store);
         let expected_rm = if line.starts_with("st rm") { guarded(std::panic::AssertUnwindSafe(|| expected_removed(&ex.store, line))).ok().flatten() } else { None };
         let out = ex.exec(line);
+        if std::env::var("VERIF_TRACE").is_ok() { eprintln!("TRACE {}", line); }
         lines.push(line.clone());
         let cls = op_class(line);
         rep.count(&format!("op:{}:{}", cls, out.split(|c| c == ' ' || c == ':').next().unwrap_or("?")));
@@ -1518,6 +1519,61 @@ pub fn run(opts: &Opts) -> Report {
             rep.case(Some(&script.join("|")));
         }
     }
+    // ---------- C01: compaction (`reindex()`) after removals: every item, named by its identifier, still refers to and is
+    // referred to by the same items ----------
+    if property.map(|p| p == "C01").unwrap_or(true) {
+        // (from the raw selectors, one step at a time: a target that ends up referring to itself must not send the
+        // description into an endless recursion)
+        let by_ids = |st: &AnnotationStore| -> Vec<String> {
+            let mut v: Vec<String> = vec![];
+            let ann_id = |h: usize| -> String { let a: Result<&Annotation, _> = st.get(AnnotationHandle::new(h)); a.ok().map(|a| a.id().unwrap_or("~").to_string()).unwrap_or("<no such annotation>".into()) };
+            let res_id = |h: usize| -> String { let r: Result<&TextResource, _> = st.get(TextResourceHandle::new(h)); r.ok().map(|r| r.id().unwrap_or("~").to_string()).unwrap_or("<no such resource>".into()) };
+            let set_id = |h: usize| -> String { let d: Result<&AnnotationDataSet, _> = st.get(AnnotationDataSetHandle::new(h)); d.ok().map(|d| d.id().unwrap_or("~").to_string()).unwrap_or("<no such dataset>".into()) };
+            let (aslots, _, _) = st.verif_dump_slots();
+            for (h, l) in aslots.iter().enumerate() {
+                if !*l { continue; }
+                let a: &Annotation = match st.get(AnnotationHandle::new(h)) { Ok(a) => a, Err(_) => continue };
+                let mut tg: Vec<String> = vec![]; let mut dt: Vec<String> = vec![];
+                for k in forward_keys(st, a) { match k {
+                    FKey::Ann(x) => tg.push(format!("A:{}", ann_id(x))),
+                    FKey::TSel(r, t) => { let rr: Result<&TextResource, _> = st.get(TextResourceHandle::new(r)); let range = rr.ok().and_then(|rr| { let ts: Result<&TextSelection, _> = rr.get(TextSelectionHandle::new(t)); ts.ok().map(|ts| format!("{}-{}", ts.begin(), ts.end())) }).unwrap_or("<no such selection>".into()); tg.push(format!("T:{}:{}", res_id(r), range)); }
+                    FKey::ResMeta(r) => tg.push(format!("R:{}", res_id(r))),
+                    FKey::SetMeta(x) => tg.push(format!("S:{}", set_id(x))),
+                    FKey::Data(x, d) => { let ds: Result<&AnnotationDataSet, _> = st.get(AnnotationDataSetHandle::new(x)); let item = ds.ok().and_then(|ds| { let it: Result<&AnnotationData, _> = ds.get(AnnotationDataHandle::new(d)); it.ok().map(|it| { let k: Result<&DataKey, _> = ds.get(it.key()); format!("{}={}", k.ok().and_then(|k| k.id().map(|x| x.to_string())).unwrap_or("~".into()), show_value(it.value())) }) }).unwrap_or("<no such data>".into()); dt.push(format!("{}/{}", set_id(x), item)); }
+                    FKey::KeyMeta(x, k) => tg.push(format!("K:{}:{}", set_id(x), k)),
+                    FKey::DataMeta(x, d) => tg.push(format!("D:{}:{}", set_id(x), d)),
+                } }
+                tg.sort(); dt.sort();
+                let mut by: Vec<String> = st.annotation(AnnotationHandle::new(h)).map(|item| item.annotations().map(|x| x.id().unwrap_or("~").to_string()).collect()).unwrap_or_default();
+                by.sort();
+                v.push(format!("annotation {} targets {:?} data {:?} targeted-by {:?}", a.id().unwrap_or("~"), tg, dt, by));
+            }
+            for r in st.resources() { let mut by: Vec<String> = r.annotations().map(|x| x.id().unwrap_or("~").to_string()).collect(); by.sort(); v.push(format!("resource {} used-by {:?}", r.id().unwrap_or("~"), by)); }
+            for d in st.datasets() { for x in d.data() { let mut by: Vec<String> = x.annotations().map(|a| a.id().unwrap_or("~").to_string()).collect(); by.sort(); v.push(format!("data {}/{}={} used-by {:?}", d.id().unwrap_or("~"), x.key().id().unwrap_or("~"), show_value(x.value()), by)); } }
+            v.sort();
+            v
+        };
+        for i in 0..(if opts.thorough() { 24 } else { 8 }) {
+            let what = i % 4;   // which kind of item leaves a gap: 0 = none (no gap), 1 = an annotation, 2 = a resource, 3 = a dataset
+            let script: Vec<String> = vec!["st addres r0 9".into(), "st addres r1 9".into(), "st addres r2 9".into(),
+                "st annot a0 T:r0:b0:b2 s0/k0/s:v0".into(), "st annot a1 T:r1:b1:b3 s1/k0/s:v1".into(), "st annot a2 A:a1 s2/k0/s:v2".into(), "st annot a3 T:r2:b2:b4 s2/k1/s:v3".into(), "st annot a4 M[A:a2;A:a3] s1/k1/s:v4".into(),
+                match what { 0 => "st obs".to_string(), 1 => "st rmann a0".to_string(), 2 => "st rmres r0".to_string(), _ => "st rmset s0".to_string() }];
+            let mut ex = Exec::new();
+            let outs: Vec<String> = script.iter().map(|l| ex.exec(l)).collect();
+            if outs.iter().any(|o| !o.starts_with("ok") && !o.starts_with('A') && !o.starts_with("N=") && !o.contains('[')) { rep.count("reindex:script-refused"); }
+            let before = match guarded(std::panic::AssertUnwindSafe(|| by_ids(&ex.store))) { Ok(b) => b, Err(_) => continue };
+            let o = ex.exec("st reindex");
+            let name = ["no-gap", "after-removing-an-annotation", "after-removing-a-resource", "after-removing-a-dataset"][what];
+            rep.count(&format!("reindex:{}", name));
+            rep.case(Some(&format!("reindex {} {}", name, i / 4)));
+            let mut ctx = script.clone(); ctx.push("st reindex".into());
+            if o.starts_with("panic") { rep.fail("panic", &format!("C01/reindex/{}/panic", name), ctx, "ok", &o); continue; }
+            match guarded(std::panic::AssertUnwindSafe(|| by_ids(&ex.store))) {
+                Ok(after) => if after != before { let (x, y) = { let mut d = (String::new(), String::new()); for k in 0..before.len().max(after.len()) { let (a, b) = (before.get(k).cloned().unwrap_or("<missing>".into()), after.get(k).cloned().unwrap_or("<missing>".into())); if a != b { d = (a, b); break; } } d }; rep.fail("oracle", &format!("C01/reindex/{}/items-refer-to-other-items", name), ctx, &x, &y); },
+                Err(m) => rep.fail("panic", &format!("C01/reindex/{}/store-panics-afterwards", name), ctx, "a usable store", &m),
+            }
+        }
+    }
     // ---------- C14: annotate_from_file with a document the JSON layer refuses leaves the store as it was ----------
     if property.map(|p| p == "C14").unwrap_or(true) {
         let n = if opts.thorough() { 400 } else { 80 };
@@ -1634,6 +1690,9 @@ pub fn run(opts: &Opts) -> Report {
         if !done.insert((f.kind.clone(), f.signature.clone())) {
             continue;
         }
+        // (crafted cases that are minimal already; the script runner's oracles must not walk a store whose targets
+        // were redirected by compaction: an annotation that ends up targeting itself overflows the stack)
+        if f.signature.starts_with("C01/reindex/") || f.signature.starts_with("C14/batch/") { continue; }
         let script: Vec<String> = f.case.iter().filter(|l| l.starts_with("st ") && *l != "st obs").cloned().collect();
         let small = shrink(&script, &f.kind, &f.signature, property);
         let mut r = Report::new("shrunk", "");
